@@ -286,10 +286,25 @@ check:
 				break check
 			}
 		}
+		// A statement in a submodule also sees the top level of the module
+		// the submodule belongs to and of that module's other submodules
+		// (RFC 7950 section 5.1).
+		if root.BelongsTo != nil {
+			if owner := module(root); owner != nil && owner != root {
+				if td = d.find(owner, name); td != nil {
+					break check
+				}
+				for _, in := range owner.Include {
+					if td = d.find(in.Module, name); td != nil {
+						break check
+					}
+				}
+			}
+		}
 		var pname string
 		switch {
 		case prefix == "", prefix == rootPrefix:
-			pname = rootPrefix + ":" + t.Name
+			pname = rootPrefix + ":" + name
 		default:
 			pname = fmt.Sprintf("%s[%s]:%s", prefix, rootPrefix, t.Name)
 		}
